@@ -126,7 +126,10 @@ func VerifHarness_C01_race() {
 		tree.add("b2", "a1", []*wire.MsgTx{vkTx(2, []int{0}, true)})
 		tree.add("b3", "b2", nil)
 		tree.add("b4", "b3", nil)
-		tips, starts = []string{"a2", "a3", "b3", "b4"}, []string{"a1", "a2"}
+		// ... and the first branch can overtake again (back to a branch that was reverted)
+		tree.add("a4", "a3", nil)
+		tree.add("a5", "a4", nil)
+		tips, starts = []string{"a2", "a3", "b3", "b4", "a5"}, []string{"a1", "a2"}
 	} else {
 		// fork at height 3, deeper than one getheaders reply reaches from genesis (limit 2 below)
 		tree.add("a4", "a3", nil)
